@@ -13,7 +13,7 @@ from .past import render_program, rename_vars
 
 PROPERTY = "C20"
 BATCH = {"quick": 5, "thorough": 8}
-RUNS = {"quick": 160, "thorough": 6000}
+RUNS = {"quick": 160, "thorough": 3200}
 TIMEOUT = 1500
 LEVEL = "exploration"
 FIXED_BATCHES = True
